@@ -15,6 +15,17 @@ func sameVar(a, b ssa.Value) bool {
 	if a == b {
 		return true
 	}
+	// a variable cell and a load of it denote the same variable
+	if al, ok := a.(*ssa.Alloc); ok {
+		if u, ok := b.(*ssa.UnOp); ok && u.Op == token.MUL && u.X == al {
+			return true
+		}
+	}
+	if al, ok := b.(*ssa.Alloc); ok {
+		if u, ok := a.(*ssa.UnOp); ok && u.Op == token.MUL && u.X == al {
+			return true
+		}
+	}
 	ua, ok1 := a.(*ssa.UnOp)
 	ub, ok2 := b.(*ssa.UnOp)
 	if ok1 && ok2 && ua.Op == token.MUL && ub.Op == token.MUL {
